@@ -48,7 +48,7 @@ func mustPanic(f func()) (p any) {
 }
 
 func check(c tcase) *mc.Failure {
-	return mc.Guard(func() *mc.Failure {
+	return mc.GuardT("slice-utils", c, func() *mc.Failure {
 		n := max(c.Len, 0)
 		in := mk(c.Len, c.Spare)
 		switch c.Fn {
